@@ -415,6 +415,12 @@ class C01(Prop):
                         names = ['r%d' % i for i in range(8)]
                         tasks = [loop.create_task(call2(nm_, (lambda nm_=nm_: s.send_request('m', [nm_])))) for nm_ in names]
                         tasks.append(loop.create_task(call2('B', batch2)))
+
+                        async def batch_of_one():
+                            async with s.send_batch() as b:
+                                b.add_request('m', ['only'])
+                            return [r if not isinstance(r, Exception) else ['exc', type(r).__name__, getattr(r, 'code', None)] for r in b.results]
+                        tasks.append(loop.create_task(call2('B1', batch_of_one)))
                         await asyncio.sleep(0.2)
                         ids = {}
                         for m_ in sessions.sent_messages(ft, 0):
@@ -451,6 +457,11 @@ class C01(Prop):
                             await asyncio.sleep(0.05)
                         send([{'jsonrpc': '2.0', 'id': ids['b2'], 'error': {'code': 9, 'message': 'no b2'}}, {'jsonrpc': '2.0', 'id': ids['b1'], 'result': 'for b1'}])
                         want['B'] = ['result', ['for b1', ['exc', 'RPCError', 9]]]
+                        # a batch of ONE request: one outcome per member - the peer mirrors the grouping it was sent
+                        sent_as_array = any(isinstance(m_, list) and any(x.get('params') == ['only'] for x in m_) for m_ in sessions.sent_messages(ft, 0))
+                        err1 = {'jsonrpc': '2.0', 'id': ids['only'], 'error': {'code': 11, 'message': 'no'}}
+                        send([err1] if sent_as_array else err1)
+                        want['B1'] = ['result', [['exc', 'RPCError', 11]]]
                         await asyncio.sleep(0.3)
                         await asyncio.wait(tasks, timeout=10)
                         for t in tasks:
